@@ -154,8 +154,14 @@ def run_case(case):
         narrow = set(r_.sample(range(ns), r_.randint(1, ns - 1)))
         for i in narrow:
             stack[:, i] &= 0xFF
+    narrow_dirs = set()
+    if dt == np.uint16 and not narrow and ndirs >= 2:
+        # directories of different pixel depth, the narrowest first
+        narrow_dirs = {0}
+        stack[0] &= 0xFF
     top = tempfile.mkdtemp(prefix="c15-")
-    obs = {"conversions": 0, "stacks_mixing_8_and_16_bit_slices": int(bool(narrow)), "codes": {code: 1}, "voxels_compared": 0,
+    obs = {"conversions": 0, "stacks_mixing_8_and_16_bit_slices": int(bool(narrow)),
+           "directories_of_different_pixel_depth": int(bool(narrow_dirs)), "codes": {code: 1}, "voxels_compared": 0,
            "slice_groups": {"fewer": int(ns < depth), "equal": int(ns == depth),
                             "partial_last": int(ns > depth and ns % depth != 0)},
            "more_than_256_slices": int(ns > 256),
@@ -183,7 +189,15 @@ def run_case(case):
         for d, kind_ in enumerate(layout):
             # directory names are NOT in lexicographic order: channels follow the order in
             # which the directories are given
-            p = os.path.join(top, ["z_first", "m_second", "a_third"][d] if d < 3 else f"in{d}")
+            p = os.path.join(top, ["z_first[1]", "m_sec*nd", "a_th?rd"][d] if d < 3 else f"in{d}")
+            if d == 0:
+                # a sibling directory whose name the first one matches as a shell pattern,
+                # holding other images of the same geometry
+                decoy = os.path.join(top, "z_first1")
+                os.makedirs(decoy)
+                for i_ in range(ns):
+                    PIL.Image.fromarray(np.full((nr, ncol), 77, dtype=np.uint8)).save(
+                        os.path.join(decoy, f"slice_{i_:04d}.png"))
             os.makedirs(p)
             dirs.append(p)
             for i in range(ns):
@@ -195,7 +209,8 @@ def run_case(case):
                     continue
                 else:
                     img = PIL.Image.fromarray(stack[ch0, i].astype(np.uint8)
-                                              if i in narrow else stack[ch0, i])
+                                              if (i in narrow or d in narrow_dirs)
+                                              else stack[ch0, i])
                 img.save(os.path.join(p, f"{names[i]}.{fmt}"))
             ch0 += 3 if kind_ == "rgb" else 1
             if case["vseed"] % 5 == 2 and ns >= 2:
@@ -239,8 +254,11 @@ def run_case(case):
                 argv.append("--no-gzip")
             if opts["flat"] and not sharded:
                 argv.append("--flat")
-            p = subprocess.run(argv, capture_output=True, text=True, timeout=240,
-                               env=dict(os.environ, TQDM_DISABLE="1"))
+            cli_env = dict(os.environ, TQDM_DISABLE="1")
+            if case["vseed"] % 2:
+                cli_env["PYTHONIOENCODING"] = "ascii"     # output not in UTF-8
+                obs["cli_runs_with_ascii_output"] = 1
+            p = subprocess.run(argv, capture_output=True, text=True, timeout=240, env=cli_env)
             obs["cli_runs"] = 1
             if p.returncode != 0:
                 err = f"exit status {p.returncode}: {p.stderr.strip().splitlines()[-1:]}"
@@ -313,6 +331,9 @@ def gates(obs, tier):
         "uint16_and_tiff": obs.get("uint16", 0) > 0 and obs.get("tiff", 0) > 0,
         "stacks_mixing_8_and_16_bit_slices": obs.get(
             "stacks_mixing_8_and_16_bit_slices", 0) > 5,
+        "directories_of_different_pixel_depth": obs.get(
+            "directories_of_different_pixel_depth", 0) > 0,
+        "cli_runs_with_ascii_output": obs.get("cli_runs_with_ascii_output", 0) > 10,
         "uint64_label_slices": obs.get("uint64_slices", 0) > 10,
         "slice_directories_of_symbolic_links": obs.get(
             "slice_directories_of_symbolic_links", 0) > 10,
